@@ -140,6 +140,10 @@ class PGen:
             lambda: ["Sequence", [[None, ["Prefixed", B, ["Struct", [["t", ["name", "Tell"]], ["x", B], ["r", ["RawCopy", B]], ["rest", ["name", "GreedyBytes"]]]], False]]]],
             lambda: ["Sequence", [[None, ["FixedSized", ["bin", "+", EN(), 3], ["Struct", [["t", ["name", "Tell"]], ["p", ["Pointer", ["this", "t"], B]], ["g", ["name", "GreedyBytes"]]]]]]]],
             lambda: ["Sequence", [[None, B], [None, ["Prefixed", B, ["FixedSized", 2, ["Struct", [["t", ["name", "Tell"]], ["x", B]]]], True]]]],
+            # a StopIf inside a FocusedSeq ends the ENCLOSING structure (in parse and in build); a Pointer told to use the outermost stream
+            lambda: ["FocusedSeq", "x", [["x", B], [None, ["StopIf", ["bin", "==", ["this", "x"], 0]]], ["y", ["Default", B, 3]]]],
+            lambda: ["Sequence", [[None, ["FocusedSeq", "x", [["x", B], [None, ["StopIf", ["bin", "<", ["this", "x"], 2]]], ["y", ["Default", B, 3]]]]], [None, B]]],
+            lambda: ["Sequence", [[None, ["Prefixed", B, ["Struct", [["a", B], ["q", ["Pointer", 0, B, ["this", "_root", "_io"]]], ["g", ["name", "GreedyBytes"]]]], False]]]],
             # padding with a pattern other than zero bytes
             lambda: ["Padded", ["bin", "+", E(), 3], X(), tag(b"\xff")], lambda: ["Padding", ["bin", "+", ["bin", "&", E(), 3], 1], tag(b"*")], lambda: ["Padded", 4, B, tag(b"\x01")],
             lambda: ["Aligned", 4, X(), tag(b"\xaa")],
